@@ -973,3 +973,266 @@ Module Sanity.
       map (fun k => get_latest_entry ex_s2 k None) ex_keys.
   Proof. vm_compute. repeat split. Qed.
 End Sanity.
+
+(* ====================================================================================================================
+   The ALL-VERSIONS read path (Storage::read_all_with_deletion_marker / read_all) goes through the same hierarchy
+   iterator. Results (all closed under the global context), for (s, h) = freach K bloom0 cfg group evs:
+     filtered_read_all_dm_is_read_all_dm : read_all_dm_filtered K bloom0 h s k = read_all_dm s k
+     filtered_read_all_is_read_all       : read_all_filtered    K bloom0 h s k = read_all s k
+     filtered_read_all_is_spec           : ... = spec_all_dm (abs s) k  /\  ... = spec_all (abs s) k
+     iter_read_all_dm_is_read_all_dm / iter_read_all_is_read_all : the same for the path as the Rust text has it (the
+                                           hierarchy iterator only; blobs are not asked through their own filter)
+     filtered_slot_read_all_dm_is_read_all_dm : closed blobs asked through the filter stored in their slot
+   Proof: a blob that holds no record of the key contributes [] ; `ra_merge` (count of non-empty contributions, marker
+   presence, concatenation) depends only on the NON-EMPTY contributions in their order; the iterator yields an
+   increasing sublist of the slot ids, so the non-empty contributions come in the same order (all_cover). *)
+Require Import Pearl.Storage.ReadAllProofs.
+
+(* ---------- ra_merge sees only the non-empty contributions ---------- *)
+Lemma ra_filter_idem (pb : list (list rec)) : filter ra_nonempty (filter ra_nonempty pb) = filter ra_nonempty pb.
+Proof.
+  induction pb as [|l pb IH]; [reflexivity|]. cbn [filter]. destruct (ra_nonempty l) eqn:E; [|exact IH].
+  cbn [filter]. rewrite E, IH. reflexivity.
+Qed.
+
+Lemma ra_existsb_nonempty (pb : list (list rec)) :
+  existsb (fun l => match last_del_ts l with Some _ => true | None => false end) (filter ra_nonempty pb) =
+  existsb (fun l => match last_del_ts l with Some _ => true | None => false end) pb.
+Proof.
+  induction pb as [|l pb IH]; [reflexivity|]. cbn [filter existsb]. destruct l as [|x l]; cbn [ra_nonempty].
+  - exact IH.
+  - cbn [existsb]. rewrite IH. reflexivity.
+Qed.
+
+Lemma ra_concat_nonempty (pb : list (list rec)) : concat (filter ra_nonempty pb) = concat pb.
+Proof.
+  induction pb as [|l pb IH]; [reflexivity|]. cbn [filter concat]. destruct l as [|x l]; cbn [ra_nonempty].
+  - exact IH.
+  - cbn [concat]. rewrite IH. reflexivity.
+Qed.
+
+Lemma ra_merge_nonempty (pb : list (list rec)) : ra_merge pb = ra_merge (filter ra_nonempty pb).
+Proof.
+  unfold ra_merge. change (fun l : list rec => match l with [] => false | _ :: _ => true end) with ra_nonempty.
+  rewrite ra_filter_idem, ra_existsb_nonempty, ra_concat_nonempty. reflexivity.
+Qed.
+
+Lemma ra_merge_ext (pb pb' : list (list rec)) :
+  filter ra_nonempty pb = filter ra_nonempty pb' -> ra_merge pb = ra_merge pb'.
+Proof. intros E. rewrite (ra_merge_nonempty pb), (ra_merge_nonempty pb'), E. reflexivity. Qed.
+
+(* a blob that holds no record of the key contributes the empty list *)
+Lemma idx_get_all_dm_nokey b k : idx_ok b -> ~ In k (blob_keys b) -> idx_get_all_dm (b_idx b) k = [].
+Proof.
+  intros Hok Hn. unfold idx_ok in Hok. unfold idx_get_all_dm.
+  rewrite Hok, imap_get_index_of, of_key_nokey by exact Hn. reflexivity.
+Qed.
+
+Section CoverAll.
+Variable chk : option nat -> blob -> N -> bool.
+Variable k : N.
+Variable look : nat -> option (option blob).
+
+Let F (c : nat) : list (list rec) :=
+  match look c with
+  | Some (Some b) => if chk (Some c) b k then [idx_get_all_dm (b_idx b) k] else []
+  | _ => []
+  end.
+Let G (b : blob) : list rec := idx_get_all_dm (b_idx b) k.
+
+(* the non-empty contributions of the consulted slots, newest first, are those of all closed blobs, newest first *)
+Lemma all_cover : forall (c : list (option blob)) i L,
+  (forall j o, nth_error c j = Some o -> look (i + j) = Some o) ->
+  (forall b, In (Some b) c -> idx_ok b) ->
+  sublist L (seq i (length c)) ->
+  (forall j b, nth_error c j = Some (Some b) -> In k (blob_keys b) -> In (i + j) L /\ chk (Some (i + j)) b k = true) ->
+  filter ra_nonempty (flat_map F (rev L)) = filter ra_nonempty (map G (rev (cb c))).
+Proof.
+  induction c as [|o c IH]; intros i L Hlook Hok Hsub Hcov.
+  - cbn [length seq] in Hsub. apply sublist_nil_r in Hsub. subst L. reflexivity.
+  - cbn [length seq] in Hsub.
+    assert (Hlook' : forall j o', nth_error c j = Some o' -> look (S i + j) = Some o').
+    { intros j o' Hj. replace (S i + j) with (i + S j) by lia. apply Hlook. exact Hj. }
+    assert (Hok' : forall b, In (Some b) c -> idx_ok b).
+    { intros b Hb. apply Hok. right. exact Hb. }
+    assert (Hcov' : forall L', (forall x, In x L -> x = i \/ In x L') ->
+              forall j b, nth_error c j = Some (Some b) -> In k (blob_keys b) ->
+                          In (S i + j) L' /\ chk (Some (S i + j)) b k = true).
+    { intros L' HL j b Hj Hk. replace (S i + j) with (i + S j) by lia. destruct (Hcov (S j) b Hj Hk) as [H1 H2].
+      split; [|exact H2]. destruct (HL _ H1) as [E|E]; [lia | exact E]. }
+    pose proof (Hlook 0 o eq_refl) as Hl0. rewrite Nat.add_0_r in Hl0.
+    assert (Hsplit : map G (rev (cb (o :: c))) = map G (rev (cb c)) ++ match o with Some b => [G b] | None => [] end).
+    { destruct o as [b|].
+      - rewrite cb_cons_some. cbn [rev]. rewrite map_app. reflexivity.
+      - rewrite cb_cons_none, app_nil_r. reflexivity. }
+    rewrite Hsplit, filter_app.
+    inversion Hsub as [|x l1 l2 Hs1 E1 E2|x l1 l2 Hs1 E1 E2]; subst.
+    + (* slot i is consulted *)
+      cbn [rev]. rewrite flat_map_app, filter_app. rewrite (IH (S i) l1 Hlook' Hok' Hs1).
+      2:{ apply Hcov'. intros x [<-|Hx]; [left; reflexivity | right; exact Hx]. }
+      f_equal. cbn [flat_map]. rewrite app_nil_r. unfold F. rewrite Hl0. destruct o as [b|]; [|reflexivity].
+      destruct (in_dec N.eq_dec k (blob_keys b)) as [Hin|Hn].
+      * destruct (Hcov 0 b eq_refl Hin) as [_ Hc]. rewrite Nat.add_0_r in Hc. rewrite Hc. reflexivity.
+      * unfold G. rewrite (idx_get_all_dm_nokey b k) by (try exact Hn; apply Hok; left; reflexivity).
+        destruct (chk (Some i) b k); reflexivity.
+    + (* slot i is skipped: it cannot hold the key, its contribution is empty *)
+      rewrite (IH (S i) L Hlook' Hok' Hs1).
+      2:{ apply Hcov'. intros x Hx. right. exact Hx. }
+      assert (Hemp : filter ra_nonempty (match o with Some b => [G b] | None => [] end) = []).
+      { destruct o as [b|]; [|reflexivity].
+        destruct (in_dec N.eq_dec k (blob_keys b)) as [Hin|Hn].
+        - exfalso. destruct (Hcov 0 b eq_refl Hin) as [Hc _]. rewrite Nat.add_0_r in Hc.
+          apply (sublist_in _ _ _ Hs1) in Hc. apply in_seq in Hc. lia.
+        - unfold G. rewrite (idx_get_all_dm_nokey b k) by (try exact Hn; apply Hok; left; reflexivity). reflexivity. }
+      rewrite Hemp, app_nil_r. reflexivity.
+Qed.
+End CoverAll.
+
+Section ProofsAll.
+Variable K : N.
+
+(* transparency under coverage, all-versions path *)
+Lemma filtered_all_transparent chk (h : chier) s k :
+  (forall b, In (Some b) (s_closed s) -> idx_ok b) ->
+  (forall b, s_active s = Some b -> idx_ok b) ->
+  sublist (ch_iter K h k) (seq 0 (length (s_closed s))) ->
+  (forall b, s_active s = Some b -> In k (blob_keys b) -> chk None b k = true) ->
+  (forall c b, nth_error (s_closed s) c = Some (Some b) -> In k (blob_keys b) ->
+               In c (ch_iter K h k) /\ chk (Some c) b k = true) ->
+  read_all_dm_filtered_with K chk h s k = read_all_dm s k.
+Proof.
+  intros Hokc Hoka Hsub Hca Hcc. rewrite read_all_dm_merge. unfold read_all_dm_filtered_with, per_blob_filtered_with.
+  apply ra_merge_ext. rewrite !filter_app. f_equal.
+  - destruct (s_active s) as [b|] eqn:Ea; [|reflexivity].
+    destruct (in_dec N.eq_dec k (blob_keys b)) as [Hin|Hn].
+    + rewrite (Hca b eq_refl Hin). reflexivity.
+    + rewrite (idx_get_all_dm_nokey b k (Hoka b eq_refl) Hn). destruct (chk None b k); reflexivity.
+  - rewrite closed_blobs_cb.
+    apply (all_cover chk k (nth_error (s_closed s)) (s_closed s) 0 (ch_iter K h k)).
+    + intros j o Hj. exact Hj.
+    + exact Hokc.
+    + exact Hsub.
+    + intros j b Hj Hk. exact (Hcc j b Hj Hk).
+Qed.
+End ProofsAll.
+
+Section MainAll.
+Variable K : N.
+Variable bloom0 : option bloom.
+Variable cfg : config.
+Variable group : nat.
+
+(* general form: any blob-level check that never rejects a key the blob holds *)
+Theorem filtered_read_all_dm_with_is_read_all_dm chk evs k :
+  0 < group -> bloom0_wf bloom0 ->
+  let s := fst (freach K bloom0 cfg group evs) in
+  let h := snd (freach K bloom0 cfg group evs) in
+  (forall b, s_active s = Some b -> In k (blob_keys b) -> chk None b k = true) ->
+  (forall c b, nth_error (s_closed s) c = Some (Some b) -> In k (blob_keys b) -> In c (ch_iter K h k) ->
+               chk (Some c) b k = true) ->
+  read_all_dm_filtered_with K chk h s k = read_all_dm s k.
+Proof.
+  intros Hg H0 s h Hca Hcc.
+  assert (HI : Inv K s) by (unfold s; rewrite freach_storage; apply reach_Inv).
+  destruct HI as [[HBc HBa] _]. pose proof (freach_Tracked K bloom0 cfg group evs H0) as HT. fold s h in HT.
+  apply filtered_all_transparent.
+  - intros b Hb. apply (HBc b Hb).
+  - intros b Hb. apply (HBa b Hb).
+  - eapply tracked_sublist; exact HT.
+  - exact Hca.
+  - intros c b Hc Hk. destruct (tracked_cover K bloom0 group _ _ c b k Hg H0 HT Hc Hk) as [Hin _].
+    split; [exact Hin | apply Hcc; assumption].
+Qed.
+
+(* MAIN THEOREMS: after every history of storage operations interleaved with offload_buffer calls, the all-versions read
+   that opens only the blobs the hierarchy yields for the key, each through its own filter, returns the list the
+   filterless read_all_with_deletion_marker / read_all return: the group filters never hide a version *)
+Theorem filtered_read_all_dm_is_read_all_dm evs k :
+  0 < group -> bloom0_wf bloom0 ->
+  let s := fst (freach K bloom0 cfg group evs) in
+  let h := snd (freach K bloom0 cfg group evs) in
+  read_all_dm_filtered K bloom0 h s k = read_all_dm s k.
+Proof.
+  intros Hg H0 s h. unfold read_all_dm_filtered. apply filtered_read_all_dm_with_is_read_all_dm; try assumption.
+  - intros b _ Hk. apply blob_check_sound; assumption.
+  - intros c b _ Hk _. apply blob_check_sound; assumption.
+Qed.
+
+Theorem filtered_read_all_is_read_all evs k :
+  0 < group -> bloom0_wf bloom0 ->
+  let s := fst (freach K bloom0 cfg group evs) in
+  let h := snd (freach K bloom0 cfg group evs) in
+  read_all_filtered K bloom0 h s k = read_all s k.
+Proof.
+  intros Hg H0 s h. unfold read_all_filtered, read_all, s, h.
+  rewrite (filtered_read_all_dm_is_read_all_dm evs k Hg H0). reflexivity.
+Qed.
+
+(* closed blobs asked through the filter the hierarchy stores for their slot *)
+Theorem filtered_slot_read_all_dm_is_read_all_dm evs k :
+  0 < group -> bloom0_wf bloom0 ->
+  let s := fst (freach K bloom0 cfg group evs) in
+  let h := snd (freach K bloom0 cfg group evs) in
+  read_all_dm_filtered_slot K bloom0 h s k = read_all_dm s k.
+Proof.
+  intros Hg H0 s h. unfold read_all_dm_filtered_slot. apply filtered_read_all_dm_with_is_read_all_dm; try assumption.
+  - intros b _ Hk. apply blob_check_sound; assumption.
+  - intros c b Hc Hk _. pose proof (freach_Tracked K bloom0 cfg group evs H0) as HT.
+    exact (proj2 (tracked_cover K bloom0 group _ _ c b k Hg H0 HT Hc Hk)).
+Qed.
+
+(* the path as the Rust text has it: the hierarchy iterator is the only filtering *)
+Theorem iter_read_all_dm_is_read_all_dm evs k :
+  0 < group -> bloom0_wf bloom0 ->
+  let s := fst (freach K bloom0 cfg group evs) in
+  let h := snd (freach K bloom0 cfg group evs) in
+  read_all_dm_iter K h s k = read_all_dm s k.
+Proof.
+  intros Hg H0 s h. unfold read_all_dm_iter. apply (filtered_read_all_dm_with_is_read_all_dm _ evs k Hg H0); reflexivity.
+Qed.
+
+Theorem iter_read_all_is_read_all evs k :
+  0 < group -> bloom0_wf bloom0 ->
+  let s := fst (freach K bloom0 cfg group evs) in
+  let h := snd (freach K bloom0 cfg group evs) in
+  read_all_iter K h s k = read_all s k.
+Proof.
+  intros Hg H0 s h. unfold read_all_iter, read_all, s, h.
+  rewrite (iter_read_all_dm_is_read_all_dm evs k Hg H0). reflexivity.
+Qed.
+
+(* hence the filtered all-versions reads answer as the specification does: every record of the key in rank order
+   (timestamp descending, then blob recency, then append recency) cut after the first deletion marker *)
+Theorem filtered_read_all_is_spec evs k :
+  0 < group -> bloom0_wf bloom0 ->
+  let s := fst (freach K bloom0 cfg group evs) in
+  let h := snd (freach K bloom0 cfg group evs) in
+  read_all_dm_filtered K bloom0 h s k = spec_all_dm (abs s) k /\
+  read_all_filtered K bloom0 h s k = spec_all (abs s) k.
+Proof.
+  intros Hg H0 s h. unfold s, h.
+  rewrite (filtered_read_all_dm_is_read_all_dm evs k Hg H0), (filtered_read_all_is_read_all evs k Hg H0).
+  rewrite freach_storage. split; [apply read_all_dm_spec | apply read_all_spec]; apply reach_IdxInv.
+Qed.
+
+Theorem iter_read_all_is_spec evs k :
+  0 < group -> bloom0_wf bloom0 ->
+  let s := fst (freach K bloom0 cfg group evs) in
+  let h := snd (freach K bloom0 cfg group evs) in
+  read_all_dm_iter K h s k = spec_all_dm (abs s) k /\ read_all_iter K h s k = spec_all (abs s) k.
+Proof.
+  intros Hg H0 s h. unfold s, h.
+  rewrite (iter_read_all_dm_is_read_all_dm evs k Hg H0), (iter_read_all_is_read_all evs k Hg H0).
+  rewrite freach_storage. split; [apply read_all_dm_spec | apply read_all_spec]; apply reach_IdxInv.
+Qed.
+
+End MainAll.
+
+Print Assumptions filtered_read_all_dm_with_is_read_all_dm.
+Print Assumptions filtered_read_all_dm_is_read_all_dm.
+Print Assumptions filtered_read_all_is_read_all.
+Print Assumptions filtered_slot_read_all_dm_is_read_all_dm.
+Print Assumptions iter_read_all_dm_is_read_all_dm.
+Print Assumptions iter_read_all_is_read_all.
+Print Assumptions filtered_read_all_is_spec.
+Print Assumptions iter_read_all_is_spec.
